@@ -38,6 +38,12 @@ func runTransformCase(c *trCase, dir string, variant int) (string, string) {
 	cur := filepath.Join(dir, "cur.car")
 	os.WriteFile(cur, c.F0.build(), 0o644)
 	defer os.Remove(cur)
+	// null padding after the last section is only readable with ZeroLengthSectionAsEOF; without
+	// padding the option must make no difference (half of the cases carry it)
+	var zopts []carv2.Option
+	if c.F0.Npad > 0 || variant == 1 {
+		zopts = append(zopts, carv2.ZeroLengthSectionAsEOF(true))
+	}
 	for i, st := range c.Hist {
 		before, _ := os.ReadFile(cur)
 		var err error
@@ -45,7 +51,7 @@ func runTransformCase(c *trCase, dir string, variant int) (string, string) {
 		case "wrap":
 			dst := filepath.Join(dir, "wrapped.car")
 			os.Remove(dst)
-			if st.Op.Codec == "mh" && variant == 0 {
+			if st.Op.Codec == "mh" && variant == 0 && len(zopts) == 0 {
 				err = carv2.WrapV1File(cur, dst)
 			} else {
 				var out bytes.Buffer
@@ -53,7 +59,7 @@ func runTransformCase(c *trCase, dir string, variant int) (string, string) {
 				if st.Op.Codec == "sorted" {
 					opt = carv2.UseIndexCodec(multicodec.CarIndexSorted)
 				}
-				err = carv2.WrapV1(bytes.NewReader(before), &out, opt)
+				err = carv2.WrapV1(bytes.NewReader(before), &out, append([]carv2.Option{opt}, zopts...)...)
 				if err == nil {
 					err = os.WriteFile(dst, out.Bytes(), 0o644)
 				}
